@@ -9,8 +9,8 @@ algorithm of `crates/aiken-lang/src/tipo/exhaustive.rs`, and a decision-tree mod
   `specRowLit` (`PatternStack::specialize_row_by_*`), `collectCtors` (a `BTreeMap`
   keyed by constructor name), `isComplete`, `isUseful`, `isMissing`, `recoverCtor`,
   `collectMissing`, `checkLoop`/`checkExhaustive` (`Environment::check_exhaustiveness`);
-  `isUsefulX`/`collectMissingX` are the same functions with the Rust's `unreachable!`
-  and `row[0]` panics as explicit outcomes;
+  the Rust's `unreachable!` (literal aligned with constructor) and `row[0]` panics are
+  totalised as "row dropped"; they cannot occur on well-typed matrices (`Matrix.hasTy`);
 * decision trees: `build sel` for an arbitrary column-selection function and `evalTree`.
 
 Constructor names are natural numbers (the harness numbers the constructor names of
@@ -178,7 +178,7 @@ def Matrix.nodes : Matrix → Nat
 def wilds (n : Nat) : Row := List.replicate n Pat.wild
 
 /-- `PatternStack::specialize_row_by_ctor` (`Literal` head: `unreachable!`, empty row:
-index panic — both `none` here; `isUsefulX` below keeps them as panics) -/
+index panic — both `none` here; neither occurs on a well-typed matrix) -/
 def specRowCtor (c : Nat) (arity : Nat) : Row → Option Row
   | .ctor c' _ args :: rest => if c' = c ∧ args.length = arity then some (args ++ rest) else none
   | .wild :: rest => some (wilds arity ++ rest)
@@ -422,7 +422,7 @@ def isMissing (alts : Alts) (ctors : List (Nat × Alts)) (alt : Nat × Nat) : Op
   else some (.ctor alt.1 alts (wilds alt.2))
 
 /-- `recover_ctor` (`split_at` is `take`/`drop`; `Vec::split_off` panics when the row is
-shorter than `arity` — see `collectMissingX`) -/
+shorter than `arity`, which `collectMissing_length` (Lemmas) excludes) -/
 def recoverCtor (alts : Alts) (c : Nat) (arity : Nat) (r : Row) : Row :=
   .ctor c alts (r.take arity) :: r.drop arity
 
@@ -472,70 +472,6 @@ def checkLoop (M : Matrix) (i : Nat) : List Pat → CheckResult
 
 /-- `Environment::check_exhaustiveness` on the simplified patterns of the clauses -/
 def checkExhaustive (cs : List Pat) : CheckResult := checkLoop [] 0 cs
-
-/-! ## impl with the Rust's panics kept (`unreachable!`, `self.0[0]`, `split_off`) -/
-
-/-- `none` = the Rust panics -/
-def specRowCtorX (c : Nat) (arity : Nat) : Row → Option (Option Row)
-  | .ctor c' _ args :: rest => some (if c' = c ∧ args.length = arity then some (args ++ rest) else none)
-  | .wild :: rest => some (some (wilds arity ++ rest))
-  | .lit _ :: _ => none
-  | [] => none
-
-def specRowLitX (l : Lit) : Row → Option (Option Row)
-  | .lit l' :: rest => some (if l' = l then some rest else none)
-  | .wild :: rest => some (some rest)
-  | .ctor _ _ _ :: _ => none
-  | [] => none
-
-/-- `filter_map` over the rows where a row may panic -/
-def filterMapX (f : Row → Option (Option Row)) : Matrix → Option Matrix
-  | [] => some []
-  | r :: M =>
-    match f r with
-    | none => none
-    | some none => filterMapX f M
-    | some (some r') => (filterMapX f M).map (r' :: ·)
-
-/-- every row has a head (`collect_ctors` evaluates `pattern_stack.head()` on each row) -/
-def allNonEmpty (M : Matrix) : Bool := M.all (fun r => !r.isEmpty)
-
-/-- `any` with short-circuit over outcomes that may panic -/
-def anyX (f : Nat × Nat → Option Bool) : Alts → Option Bool
-  | [] => some false
-  | a :: as =>
-    match f a with
-    | none => none
-    | some true => some true
-    | some false => anyX f as
-
-/-- `Matrix::is_useful` with panics as `none`; fuel is only there to make the definition
-structural: `isUsefulX_eq` (Lemmas) shows that on panic-free inputs it is `isUseful`. -/
-def isUsefulX : Nat → Matrix → Row → Option Bool
-  | 0, _, _ => none
-  | fuel + 1, M, v =>
-    if M.isEmpty then some true
-    else
-      match v with
-      | [] => some false
-      | .ctor c _ args :: rest =>
-        match filterMapX (specRowCtorX c args.length) M with
-        | none => none
-        | some M' => isUsefulX fuel M' (args ++ rest)
-      | .wild :: rest =>
-        if !allNonEmpty M then none
-        else
-          match isComplete M with
-          | none => isUsefulX fuel (specWild M) rest
-          | some alts =>
-            anyX (fun alt =>
-              match filterMapX (specRowCtorX alt.1 alt.2) M with
-              | none => none
-              | some M' => isUsefulX fuel M' (wilds alt.2 ++ rest)) alts
-      | .lit l :: rest =>
-        match filterMapX (specRowLitX l) M with
-        | none => none
-        | some M' => isUsefulX fuel M' rest
 
 /-! ## source patterns with variables, bindings -/
 
